@@ -103,6 +103,25 @@ Theorem C13_nonlinear_scales : forall (F : FieldT) (D : nat) (N Kc : Z) (ii s b 
 Proof. intros. apply builtin_terms_scale. Qed.
 Print Assumptions C13_nonlinear_scales.
 
+(* ... and for the terms AS REGENERATED FROM THE SOURCE (Gen/NonlinFuns.v, tied in Tie/NonlinTie.v): on the source text, the single-channel
+   convection with scale b on a domain of extent L (s = 2 pi / L) is the same term with scale b s on the unit-frequency domain, the gradient
+   norm likewise with b s^2 - the normalisation beta_1 = b dt / L, beta_2 = b dt / L^2 of the interfaces, for every state and mode *)
+From EXV Require Import Gen.NonlinFuns Tie.NonlinTie.
+Theorem C13_code_nonlinear_scales : forall (F : FieldT) (D : nat) (N Kc : Z) (ii s ND b : F) (zf : bool) (us : list (field F)) (u : field F) (k : idx),
+  let M := msk F Kc in let P2 := prod2 F D N Kc in let P3 := prod3 F D N Kc in
+  nth 0 (gen_convection F M P2 P3 ii s D ND b true true us) (fzero F) k = nth 0 (gen_convection F M P2 P3 ii 1 D ND (b * s) true true us) (fzero F) k
+  /\ nth 0 (gen_convection F M P2 P3 ii s D ND b true false us) (fzero F) k = nth 0 (gen_convection F M P2 P3 ii 1 D ND (b * s) true false us) (fzero F) k
+  /\ gen_gradient_norm F M P2 P3 ii s D ND b zf u k = gen_gradient_norm F M P2 P3 ii 1 D ND (b * s * s) zf u k.
+Proof.
+  intros F D N Kc ii s ND b zf us u k M P2 P3. unfold M, P2, P3.
+  destruct (builtin_terms_scale F D N Kc ii s b zf (nth 0 us (fzero F)) k) as (A & B & _).
+  destruct (builtin_terms_scale F D N Kc ii s b zf u k) as (_ & _ & C). splits.
+  - rewrite !convection_sc_cons_tie. exact A.
+  - rewrite !convection_sc_noncons_tie. exact B.
+  - rewrite !gradient_norm_tie. exact C.
+Qed.
+Print Assumptions C13_code_nonlinear_scales.
+
 Theorem C13_specific_equals_generic : forall (F : FieldT) (d : list F), (1 <= length d <= 3)%nat ->
   forall c nu xi mu s2 s4 drag r c1 a0d a0r a0c,
   sym_advection F (const_vec F c d) d = poly_sym F [0; - c] d
